@@ -49,9 +49,13 @@ selection rule is not documented)
     order Intel's pages print the two register nibbles for the store direction, so only the operand
     pairs whose two nibbles are equal are generated (one form per pair), which still pins down the
     opcode and the displacement.
-  * generic JMP / CALL, PUSH/POP of DRk with odd spellings, MOV A,ACC.
+  * generic JMP / CALL, MOV A,ACC (Intel: not a valid instruction).
   * PUSH #data16 is spelled PUSHW in AS (doc/processor-specific-hints.md).
   * memory addresses >= 80h in instructions that only have a dir8 form, negative addresses.
+
+Defects found with this table (repaired on branch agent/isaBC, see proposed/C14/251-*.md and
+8051-indirect-no-register-silently-dropped.md): DRk,#10000h..#1FFFFh assembled as #1data16; displacements
+8000h..0FFFFh refused; '@' + no register silently dropped (table 80C251-PTR).
 
 80C390: AS knows no switch for the address mode; CPU 80C390 is documented with a 16 Mbyte code space,
 i.e. the 24-bit contiguous mode, in which Dallas defines ACALL/AJMP addr19 (3 bytes: a18..a16 in
@@ -129,16 +133,17 @@ class PReg(Int):
         return self.names[v]
 
 
-# What must be rejected after '@': a byte register other than R0/R1 and a plain address (there is no
-# memory-indirect mode).  Names like WR1 or DR32 are no registers either, but AS has to take them for
-# symbols that may still be defined (register aliases), so their error only appears in the last pass,
-# which the other rejected lines of a batch suppress - not generated.
-def pwr():
-    return PReg(WRN, range(16), ["R2", "R15", "30h"])
+# What must be rejected after '@': a byte register other than R0/R1.  Names like WR1 or DR32 and plain
+# addresses are no registers either, but AS has to take them for symbols that may still be defined
+# (register aliases), so their error only appears in the last pass, which the other rejected lines of a
+# batch would suppress.  They are visited by the separate table 80C251-PTR, whose only rejectable
+# operands are of this kind.
+def pwr(late=False):
+    return PReg(WRN, range(16), ["WR1", "WR31", "WR32", "30h"] if late else ["R2", "R15"])
 
 
-def pdr():
-    return PReg(DRN, DRC, ["R3", "R14", "1234h"])
+def pdr(late=False):
+    return PReg(DRN, DRC, ["DR2", "DR30", "DR32", "DR52", "DR64", "1234h"] if late else ["R3", "R14"])
 
 
 def pri():      # @Ri: only R0 and R1 are pointers of the 51 page
@@ -444,6 +449,32 @@ def build(src):
     return F
 
 
+def build_ptr():
+    """source mode, register-indirect forms only (see pwr/pdr)"""
+    F = []
+
+    def add(name, fmt, ops, body):
+        def enc(pc, v, body=body, ops=ops):
+            return bytes(b & 0xff for b in body([o.codes[x] for o, x in zip(ops, v)]))
+        F.append(Form(name, fmt, ops, enc))
+
+    F.append(Form("NOP", "NOP", [], lambda pc, v: b"\x00"))
+    for m, e in (("ADD", 0x2E), ("ORL", 0x4E), ("ANL", 0x5E), ("XRL", 0x6E), ("MOV", 0x7E), ("SUB", 0x9E), ("CMP", 0xBE)):
+        add(m + " Rm,@WRj", m + " {0},@{1}", [rm(), pwr(True)], (lambda o: lambda c: [o, c[1] << 4 | 9, c[0] << 4])(e))
+        add(m + " Rm,@DRk", m + " {0},@{1}", [rm(), pdr(True)], (lambda o: lambda c: [o, c[1] << 4 | 0xB, c[0] << 4])(e))
+    add("MOV @WRj,Rm", "MOV @{0},{1}", [pwr(True), rm()], lambda c: [0x7A, c[0] << 4 | 9, c[1] << 4])
+    add("MOV @DRk,Rm", "MOV @{0},{1}", [pdr(True), rm()], lambda c: [0x7A, c[0] << 4 | 0xB, c[1] << 4])
+    add("MOV WRj,@WRj", "MOV {0},@{1}", [wr(), pwr(True)], lambda c: [0x0B, c[1] << 4 | 8, c[0] << 4])
+    add("MOV WRj,@DRk", "MOV {0},@{1}", [wr(), pdr(True)], lambda c: [0x0B, c[1] << 4 | 0xA, c[0] << 4])
+    add("MOV @WRj,WRj", "MOV @{0},{1}", [pwr(True), wr()], lambda c: [0x1B, c[0] << 4 | 8, c[1] << 4])
+    add("MOV @DRk,WRj", "MOV @{0},{1}", [pdr(True), wr()], lambda c: [0x1B, c[0] << 4 | 0xA, c[1] << 4])
+    add("LJMP @WRj", "LJMP @{0}", [pwr(True)], lambda c: [0x89, c[0] << 4 | 4])
+    add("EJMP @DRk", "EJMP @{0}", [pdr(True)], lambda c: [0x89, c[0] << 4 | 8])
+    add("LCALL @WRj", "LCALL @{0}", [pwr(True)], lambda c: [0x99, c[0] << 4 | 4])
+    add("ECALL @DRk", "ECALL @{0}", [pdr(True)], lambda c: [0x99, c[0] << 4 | 8])
+    return F
+
+
 def build390():
     F = []
 
@@ -468,6 +499,7 @@ _LAYOUT = dict(pcsym="$", slot=256, base=6, offsets=[0, 3, 0xF6, 0xF7, 0xF8, 0xF
 ISAS = [
     Isa("80C251-BIN", "80C251", build(False), "intel", golden=[("t_251", {"80c251": True})], **_LAYOUT),
     Isa("80C251-SRC", "80C251", build(True), "intel", prologue=["\tsrcmode\ton"], **_LAYOUT),
+    Isa("80C251-PTR", "80C251", build_ptr(), "intel", prologue=["\tsrcmode\ton"], pcsym="$", slot=16, base=0x100),
     Isa("80C390", "80C390", build390(), "intel", pcsym="$", slot=256, base=0x78006, offsets=[0, 3, 0xF7],
         maxaddr=0xffffff, page_end=(0x80000, 0x7FFFD)),
 ]
